@@ -20,6 +20,7 @@ import (
 	"fmt"
 	"os"
 	"path/filepath"
+	"regexp"
 	"runtime"
 	"runtime/pprof"
 	"strings"
@@ -39,6 +40,8 @@ var (
 	snappyOnly = flag.Bool("snappy-only", false, "internal: run the snappy families and print counters")
 	replayFile = flag.String("replay", "", "replay one recorded history (no explorer)")
 )
+
+var reDigits = regexp.MustCompile(`(0x)?[0-9a-f]*[0-9][0-9a-f]*`)
 
 // ---------------------------------------------------------------------------
 // alphabet
@@ -261,7 +264,11 @@ func (r *runner) length(i int) *violation {
 	}
 	if int(n) != len(b.raw) {
 		if n == 0 && m.Session {
+			// independent of the index-position diagnosis: keep its own key
+			d := r.diag
+			r.diag = ""
 			r.soft = append(r.soft, r.fail("length/zero-for-block-added-this-session", "BlockLength(%s, decode_if_needed=true) = 0 with nil error; the block has %d bytes (queued=%v)", b.name, len(b.raw), m.Queued))
+			r.diag = d
 			return nil
 		}
 		return r.fail("length/wrong", "BlockLength(%s, true) = %d, the block has %d bytes", b.name, n, len(b.raw))
@@ -522,7 +529,7 @@ func replay(c cfg, alpha []int, hist []string, audit bool) (res result) {
 	r := &runner{c: c, alpha: alpha, dir: dir + "/blocks/"}
 	defer func() {
 		if p := recover(); p != nil {
-			msg := fmt.Sprint(p)
+			msg := reDigits.ReplaceAllString(fmt.Sprint(p), "N") // sizes and addresses out of the key
 			if len(msg) > 80 {
 				msg = msg[:80]
 			}
@@ -908,7 +915,7 @@ func main() {
 		fmt.Fprintln(ev.Out, "bench: per replay", time.Since(t0)/3000)
 		return
 	}
-	depth, pairDepth := 4, 7
+	depth, pairDepth := 4, 8
 	r.Budget = 110 * time.Second
 	if r.Thorough() {
 		depth, pairDepth = 6, 9
@@ -922,7 +929,7 @@ func main() {
 	sn := runSnappy(r)
 
 	x := &explorer{run: r, evCnt: map[string]int64{}, violCnt: map[string]int{},
-		pool: crashfs.NewPool(runtime.NumCPU(), []string{"--worker"}, []string{"GOGC=800", "GOMAXPROCS=1"}, 120*time.Second)}
+		pool: crashfs.NewPool(runtime.NumCPU(), []string{"--worker"}, []string{"GOGC=800", "GOMAXPROCS=1"}, 240*time.Second)}
 	samples := &ev.Samples{N: 4}
 	cfgs := allCfgs()
 	if only := os.Getenv("C16_CFG"); only != "" {
